@@ -100,6 +100,12 @@ PROJECTS = {
         "w.js": "\ufefffoo(1); bar(2)\nlet z = a == b\n",
         "l.js": "\n\n  foo(3)\nbar(4)\n",
     },
+    # (11) the accepted edits remove a file's ENTIRE content (the rewritten file is empty)
+    "whole-file-deleted": {
+        "d.js": "debugger;",
+        "e.js": "debugger",
+        "keep.js": "debugger;\nlet k = 1\n",
+    },
     # (5) nothing matches; neighbours of other languages that contain the text of a match
     "no-match": {
         "n.js": "let y = 1;\n",
